@@ -8,9 +8,27 @@
 //!   c02.file               generated multi-revision files → `read_xref_table_and_trailer` + `resolve`
 //!   c02.xrefstm[.outside] single cross-reference streams with arbitrary /W, /Index and row data →
 //!                          `read_xref_table_and_trailer` (in-domain: conforming rows; outside: garbage)
+//!   c02.table.writer       Rust twin of the conforming classic-table writer (Spec/XrefTable.lean) against the
+//!                          Lean writer, byte for byte (same tape of layout choices)
+//!   c02.table              sections written by that writer (20-byte entries with SP CR / SP LF / CR LF, any
+//!                          subsection splitting, white-space and comments between the header numbers, trailer
+//!                          dictionary printed by the C03 printer) → `read_xref_and_trailer_at` vs
+//!                          `XrefTable.readXrefAndTrailerAt`: subsections and the whole trailer dictionary
+//!   c02.table.at           the same text behind a random prefix → `parse_xref_table_and_trailer` with the lexer
+//!                          positioned behind `xref`; also the final lexer position
+//!   c02.table.tokens       exhaustive: every sequence of ≤ 5 (thorough 6) tokens over {0 1 2 f n trailer +1 x}
+//!                          as a table body (drift class: most are malformed)
+//!   c02.table.outside      corrupted sections (bytes flipped, tokens dropped / doubled, wrong counts, truncation)
+//!   c02.walk               whole files: a chain of 1–5 classic sections in random layouts linked by /Prev behind
+//!                          an optional prefix → `read_xref_table_and_trailer(start, ..)` vs `Offsets.loadTable`
+//!                          instantiated with the table reader: merged table and the trailer returned
+//!   c02.walk.outside       broken chains: /Prev loops, /Prev to the wrong place, missing or huge /Size, …
 //! Oracle (implementation against the property itself):
 //!   c02.latest             same files: every object number resolves to the value written by the newest
 //!                          revision mentioning it / FreeObject / NullRef / Unspecified; trailer = newest
+//!   c02.table.readsback    what the real table reader returns for a conforming section is what was written
+//!   c02.walk.newest        the table the real /Prev walk builds holds the newest mention of every number (or
+//!                          Invalid), has /Size + 1 slots for the newest /Size, and the trailer is the newest one
 
 use crate::driver::Driver;
 use crate::pdfwrite::*;
@@ -24,6 +42,9 @@ use pdf::xref::{XRef, XRefSection, XRefTable};
 use serde_json::json;
 use std::collections::BTreeMap;
 use std::panic::{catch_unwind, AssertUnwindSafe};
+use crate::c03::render::{gap, nat_tok, read_tape, read_val, render_with_tail, show_canon, show_tape, show_val, Tape, Val};
+use crate::c03::{prim_to_val, TestResolve};
+use pdf::parser::{parse_xref_table_and_trailer, read_xref_and_trailer_at, Lexer};
 
 fn show_entry(e: &XRef) -> String {
     match *e {
@@ -458,9 +479,24 @@ fn xrefstm(driver: &Driver, seed: u64, n: u64, outside: bool) -> Stream {
             w = vec![w0 as u64, w1 as u64, w2 as u64];
             index = subs.iter().map(|s| (s.0, s.1.len() as u64)).collect();
             data = d;
+        } else if case < 6 {
+            // deterministic: rows of zero width (refused since the repair of D34, with or without entries,
+            // strict and tolerant), widths whose sum does not fit
+            let presets: [(&[u64], &[(u64, u64)], &[u8]); 6] = [
+                (&[0, 0, 0], &[(0, 2)], &[]),
+                (&[0, 0, 0], &[(0, 0)], &[]),
+                (&[0, 0, 0], &[(1, 3)], &[1, 2, 3]),
+                (&[0, 0, 0], &[], &[]),
+                (&[1, 0, 0], &[(0, 2)], &[1, 1]),
+                (&[0, 1, 0], &[(0, 9)], &[7, 8]),
+            ];
+            let (pw, pi, pd) = presets[case as usize];
+            w = pw.to_vec();
+            index = pi.to_vec();
+            data = pd.to_vec();
         } else {
             let nw = *rng.pick(&[3usize, 3, 3, 3, 2, 4]);
-            w = (0..nw).map(|_| *rng.pick(&[0u64, 1, 1, 2, 2, 3, 4, 8, 9])).collect();
+            w = (0..nw).map(|_| *rng.pick(&[0u64, 0, 1, 1, 2, 2, 3, 4, 8, 9])).collect();
             let nsub = rng.usize(3);
             index = (0..nsub).map(|_| (rng.below(size + 2), rng.below(6))).collect();
             let len = rng.usize(40);
@@ -485,6 +521,573 @@ fn xrefstm(driver: &Driver, seed: u64, n: u64, outside: bool) -> Stream {
     for ((rq, m), i) in reqs.iter().zip(resp.iter()).zip(imps.iter()) {
         st.count(&format!("outcome={}", m.split(' ').next().unwrap_or("")));
         st.case(rq, m, i, !rq.ends_with(" -"));
+    }
+    st
+}
+
+
+// ---------------------------------------------------------------------------------------------------
+// classic tables at byte level (model = lean/PdfModel/Model/XrefTable.lean, writer = Spec/XrefTable.lean)
+
+/// `{:0w$}`
+fn pad(w: usize, n: u64) -> Vec<u8> {
+    format!("{:0w$}", n, w = w).into_bytes()
+}
+
+fn eol_bytes(k: u64) -> &'static [u8] {
+    match k {
+        0 => b" \r",
+        1 => b" \n",
+        _ => b"\r\n",
+    }
+}
+
+/// twin of `XrefTableSpec.entryBytes`
+fn entry_bytes(e: &XRef, k: u64) -> Vec<u8> {
+    let (a, g, kw) = match *e {
+        XRef::Raw { pos, gen_nr } => (pos as u64, gen_nr, b'n'),
+        XRef::Free { next_obj_nr, gen_nr } => (next_obj_nr, gen_nr, b'f'),
+        _ => return vec![],
+    };
+    let mut out = pad(10, a);
+    out.push(b' ');
+    out.extend(pad(5, g));
+    out.push(b' ');
+    out.push(kw);
+    out.extend_from_slice(eol_bytes(k));
+    out
+}
+
+/// twin of `XrefTableSpec.writeSub`
+fn write_sub(s: &Sub, t: &mut Tape) -> Vec<u8> {
+    let mut out = nat_tok(s.0 as u64, t);
+    out.extend(gap(true, t));
+    out.extend(nat_tok(s.1.len() as u64, t));
+    out.extend(gap(true, t));
+    for e in &s.1 {
+        let k = t.draw(3);
+        out.extend(entry_bytes(e, k));
+    }
+    out.extend(gap(false, t));
+    out
+}
+
+struct Section {
+    bytes: Vec<u8>,
+    /// position just behind the keyword `xref`
+    after_xref: usize,
+}
+
+/// twin of `XrefTableSpec.writeSection`: trailer and tail first, then the gap behind `trailer`, the
+/// table, the gap behind `xref`, the leading gap (the order in which the Lean writer draws)
+fn write_section(subs: &[Sub], trailer: &Val, tail: &[u8], t: &mut Tape) -> Section {
+    let (trl, _) = render_with_tail(trailer, tail, t);
+    let g2 = gap(false, t);
+    let mut tbl = vec![];
+    for s in subs {
+        tbl.extend(write_sub(s, t));
+    }
+    let g1 = gap(true, t);
+    let g0 = gap(false, t);
+    let mut out = g0;
+    out.extend_from_slice(b"xref");
+    let after_xref = out.len();
+    out.extend(g1);
+    out.extend(tbl);
+    out.extend_from_slice(b"trailer");
+    out.extend(g2);
+    out.extend(trl);
+    Section { bytes: out, after_xref }
+}
+
+fn key(s: &str) -> Vec<u8> {
+    s.as_bytes().to_vec()
+}
+
+/// a random classic section: subsections (any splitting, also empty and overlapping ones) of in-use and
+/// free entries. `wide = false`: what a conforming writer can emit (offsets of at most ten digits,
+/// generations up to 65535, object numbers within the limits of Annex C); `wide = true`: also numbers
+/// that overflow the fixed fields or the implementation limits (outside the property's domain).
+fn gen_subs(rng: &mut Rng, wide: bool) -> Vec<Sub> {
+    let nsub = rng.usize(5);
+    let mut subs = vec![];
+    for _ in 0..nsub {
+        let first = match rng.below(8) {
+            0 if wide => rng.below(1 << 32) as u32,
+            1 if wide => u32::MAX,
+            0 => rng.below(8_388_607) as u32,
+            _ => rng.below(30) as u32,
+        };
+        let len = match rng.below(6) { 0 => 0, 1 => 1, _ => rng.usize(7) };
+        let es: Vec<XRef> = (0..len).map(|_| gen_classic_entry(rng, wide)).collect();
+        subs.push((first, es));
+    }
+    subs
+}
+
+fn gen_classic_entry(rng: &mut Rng, wide: bool) -> XRef {
+    let a = match rng.below(10) {
+        0 => 0,
+        1 => 9_999_999_999,
+        2 if wide => rng.next(),                     // beyond ten digits: the field grows, still three tokens
+        3 if wide => u64::MAX,
+        2 => rng.below(10_000_000_000),
+        _ => rng.below(100_000),
+    };
+    let g = match rng.below(10) {
+        0 => 65535,
+        1 if wide => 99999,
+        2 if wide => rng.next(),
+        1 => rng.below(65536),
+        3 | 4 => rng.below(4),
+        _ => 0,
+    };
+    if rng.chance(1, 3) { XRef::Free { next_obj_nr: a, gen_nr: g } } else { XRef::Raw { pos: a as usize, gen_nr: g } }
+}
+
+fn gen_trailer(rng: &mut Rng, size: u64, prev: Option<u64>, marker: u64) -> Val {
+    let mut kvs: Vec<(Vec<u8>, Val)> = vec![(key("Size"), Val::Int(size as i64))];
+    if let Some(p) = prev {
+        kvs.push((key("Prev"), Val::Int(p as i64)));
+    }
+    kvs.push((key("Root"), Val::Ref(1 + rng.below(5), 0)));
+    kvs.push((key("Marker"), Val::Int(marker as i64)));
+    if rng.chance(1, 2) {
+        kvs.push((key("Info"), Val::Ref(rng.below(9), rng.below(2))));
+    }
+    if rng.chance(1, 2) {
+        kvs.push((key("ID"), Val::Arr(vec![Val::Str(rng.bytes(4)), Val::Str(rng.bytes(4))])));
+    }
+    if rng.chance(1, 3) {
+        kvs.push((key("X"), Val::Dict(vec![(key("A"), Val::Name(key("b"))), (key("B"), Val::Arr(vec![Val::Int(-3), Val::Null, Val::Bool(true)]))])));
+    }
+    rng.shuffle(&mut kvs);
+    Val::Dict(kvs)
+}
+
+const TAILS: [&[u8]; 7] = [b"\nstartxref\n0\n%%EOF\n", b"", b" ", b"\r\nstartxref\r\n12\r\n%%EOF", b"%%EOF", b"\n1 0 obj\n<<>>\nendobj\n", b"startxref 5"];
+
+/// an answer `ok <a> <value> [<b>]` with the value (field `idx`) in the canonical notation (reals as f32 bits:
+/// the model hands back the token text, the implementation the number)
+fn canon_answer(ans: &str, idx: usize) -> String {
+    let mut f: Vec<String> = ans.split(' ').map(|x| x.to_string()).collect();
+    if f.first().map(|x| x.as_str()) != Some("ok") || f.len() <= idx {
+        return ans.to_string();
+    }
+    f[idx] = match read_val(&f[idx]) {
+        Some(v) => show_canon(&v),
+        None => format!("unreadable:{}", f[idx]),
+    };
+    f.join(" ")
+}
+
+fn show_subs(subs: &[Sub]) -> String {
+    show_sections(&[subs.to_vec()])
+}
+
+fn show_real_sections(secs: &[XRefSection]) -> String {
+    let subs: Vec<Sub> = secs.iter().map(|s| (s.first_id, s.entries.clone())).collect();
+    show_subs(&subs)
+}
+
+/// `read_xref_and_trailer_at` with the lexer at position 0 of `bytes`; `stream` when the first lexeme is
+/// not `xref` (the cross-reference stream branch, not part of the table model)
+fn real_table(bytes: &[u8]) -> String {
+    catch_unwind(AssertUnwindSafe(|| {
+        let res = TestResolve::new(&vec![], false);
+        let mut probe = Lexer::with_offset(bytes, 0);
+        if let Ok(w) = probe.next() {
+            if !w.equals(b"xref") {
+                return "stream".to_string();
+            }
+        }
+        let mut lexer = Lexer::with_offset(bytes, 0);
+        match read_xref_and_trailer_at(&mut lexer, &res) {
+            Ok((secs, trailer)) => format!("ok {} {}", show_real_sections(&secs), show_val(&prim_to_val(&Primitive::Dictionary(trailer), &res))),
+            Err(_) => "err".to_string(),
+        }
+    }))
+    .unwrap_or_else(|_| "panic".into())
+}
+
+/// `parse_xref_table_and_trailer` with the lexer at `pos`
+fn real_table_at(bytes: &[u8], pos: usize) -> String {
+    catch_unwind(AssertUnwindSafe(|| {
+        let res = TestResolve::new(&vec![], false);
+        let mut lexer = Lexer::new(bytes);
+        lexer.set_pos(pos);
+        match parse_xref_table_and_trailer(&mut lexer, &res) {
+            Ok((secs, trailer)) => format!("ok {} {} {}", show_real_sections(&secs), show_val(&prim_to_val(&Primitive::Dictionary(trailer), &res)), lexer.get_pos()),
+            Err(_) => "err".to_string(),
+        }
+    }))
+    .unwrap_or_else(|_| "panic".into())
+}
+
+struct TableCase {
+    subs: Vec<Sub>,
+    trailer: Val,
+    tail: Vec<u8>,
+    tape: Vec<u64>,
+    sec: Section,
+}
+
+fn gen_table_case(rng: &mut Rng, wide: bool) -> TableCase {
+    let subs = gen_subs(rng, wide);
+    let size = rng.below(40);
+    let prev = if rng.chance(1, 2) { Some(rng.below(100_000)) } else { None };
+    let marker = 1000 + rng.below(1000);
+    let trailer = gen_trailer(rng, size, prev, marker);
+    let tail = rng.pick(&TAILS).to_vec();
+    let mut tape = Tape::lazy(rng.clone());
+    let sec = write_section(&subs, &trailer, &tail, &mut tape);
+    let tape = tape.consumed().to_vec();
+    rng.next();
+    TableCase { subs, trailer, tail, tape, sec }
+}
+
+/// `wide = false`: conforming sections (in-domain streams `c02.table.writer`, `c02.table`, `c02.table.at` and the
+/// oracle); `wide = true`: the same with numbers beyond the format's fields (`c02.table.wide.*`, drift only)
+fn table_streams(driver: &Driver, seed: u64, n: u64, only: Option<u64>, wide: bool) -> (Vec<Stream>, Oracle) {
+    let base = if wide { "c02.table.wide" } else { "c02.table" };
+    let mut st_w = Stream::new(&format!("{}.writer", base), !wide);
+    let mut st_r = Stream::new(base, !wide);
+    let mut st_a = Stream::new(&format!("{}.at", base), !wide);
+    let mut or = Oracle::new(if wide { "c02.table.wide.readsback" } else { "c02.table.readsback" });
+    let (mut rq_w, mut im_w, mut rq_r, mut im_r, mut rq_a, mut im_a) = (vec![], vec![], vec![], vec![], vec![], vec![]);
+    let cases: Vec<u64> = match only { Some(c) => vec![c], None => (0..n).collect() };
+    for case in cases {
+        let mut rng = Rng::derive(seed, base, case);
+        let c = gen_table_case(&mut rng, wide);
+        let nent: usize = c.subs.iter().map(|s| s.1.len()).sum();
+        st_r.count(&format!("subsections={}", c.subs.len()));
+        st_r.count(&format!("entries={}", if nent > 9 { "10+".to_string() } else { nent.to_string() }));
+        if c.sec.bytes.contains(&b'%') { st_r.count("layout=with-comment"); }
+        for (i, w) in [" \r", " \n", "\r\n"].iter().enumerate() {
+            if c.sec.bytes.windows(3).any(|x| (x[0] == b'n' || x[0] == b'f') && &x[1..] == w.as_bytes()) { st_r.count(&format!("eol={}", ["SP-CR", "SP-LF", "CR-LF"][i])); }
+        }
+        // writer twin
+        rq_w.push(format!("c02.tablewrite {} {} {} {}", show_subs(&c.subs), show_val(&c.trailer), show_tape(&c.tape), crate::driver::hex(&c.tail)));
+        im_w.push(crate::driver::hex(&c.sec.bytes));
+        // reader at offset 0
+        let imp = real_table(&c.sec.bytes);
+        rq_r.push(format!("c02.table {}", crate::driver::hex(&c.sec.bytes)));
+        // reader behind a prefix, positioned after `xref`
+        let plen = rng.usize(30);
+        let mut buf: Vec<u8> = (0..plen).map(|_| b"ab \n%x1"[rng.usize(7)]).collect();
+        buf.extend_from_slice(&c.sec.bytes);
+        let pos = plen + c.sec.after_xref;
+        rq_a.push(format!("c02.tableat {} {}", crate::driver::hex(&buf), pos));
+        im_a.push(real_table_at(&buf, pos));
+        // oracle: the reader returns what the writer was given
+        let expect = format!("ok {} {}", show_subs(&c.subs), show_val(&c.trailer));
+        or.case(&rq_r[rq_r.len() - 1], nent > 0, || json!({"section": show_subs(&c.subs), "text": String::from_utf8_lossy(&c.sec.bytes)}));
+        if imp != expect && !wide {
+            or.fail("classic-table-misread", &format!("read_xref_and_trailer_at returned {} for a conforming section that holds {}", trunc(&imp), trunc(&expect)),
+                json!({"stream": "c02.table", "seed": seed, "case": case, "section_hex": crate::driver::hex(&c.sec.bytes), "expected": expect, "got": imp}));
+        }
+        im_r.push(imp);
+    }
+    for ((rq, m), i) in rq_w.iter().zip(driver.ask(&rq_w).iter()).zip(im_w.iter()) { st_w.case(rq, m, i, true); }
+    for ((rq, m), i) in rq_r.iter().zip(driver.ask(&rq_r).iter()).zip(im_r.iter()) {
+        st_r.count(&format!("outcome={}", m.split(' ').next().unwrap_or("")));
+        st_r.case(rq, &canon_answer(m, 2), &canon_answer(i, 2), true);
+    }
+    for ((rq, m), i) in rq_a.iter().zip(driver.ask(&rq_a).iter()).zip(im_a.iter()) { st_a.case(rq, &canon_answer(m, 2), &canon_answer(i, 2), true); }
+    (vec![st_w, st_r, st_a], or)
+}
+
+/// every sequence of at most `max` tokens over a small alphabet, as the body of a table
+fn table_tokens(driver: &Driver, max: usize) -> Stream {
+    let mut st = Stream::new("c02.table.tokens", false);
+    st.exhaustive = true;
+    let alphabet: [&str; 8] = ["0", "1", "2", "f", "n", "trailer", "+1", "x"];
+    let mut reqs = vec![];
+    let mut imps = vec![];
+    for k in 0..=max {
+        let combos = alphabet.len().pow(k as u32);
+        for c in 0..combos {
+            let mut x = c;
+            let mut body = String::from("xref ");
+            for _ in 0..k {
+                body.push_str(alphabet[x % alphabet.len()]);
+                body.push(' ');
+                x /= alphabet.len();
+            }
+            body.push_str("trailer<</Size 1>>");
+            imps.push(real_table(body.as_bytes()));
+            reqs.push(format!("c02.table {}", crate::driver::hex(body.as_bytes())));
+        }
+    }
+    for ((rq, m), i) in reqs.iter().zip(driver.ask(&reqs).iter()).zip(imps.iter()) {
+        st.count(&format!("outcome={}", m.split(' ').next().unwrap_or("")));
+        st.case(rq, &canon_answer(m, 2), &canon_answer(i, 2), m.starts_with("ok") && !m.starts_with("ok - "));
+    }
+    st
+}
+
+fn corrupt(rng: &mut Rng, bytes: &[u8]) -> (Vec<u8>, &'static str) {
+    let mut b = bytes.to_vec();
+    if b.is_empty() { return (b, "empty"); }
+    match rng.below(9) {
+        0 => { let i = rng.usize(b.len()); b[i] = rng.byte(); (b, "byte-random") }
+        1 => { let i = rng.usize(b.len()); b[i] = *rng.pick(b"fn t0+-%<> \r\n"); (b, "byte-token") }
+        2 => { let i = rng.usize(b.len()); b.truncate(i); (b, "truncate") }
+        3 => { let i = rng.usize(b.len()); b.remove(i); (b, "delete") }
+        4 => { let i = rng.usize(b.len()); b.insert(i, *rng.pick(b"0 9fn\n+")); (b, "insert") }
+        5 => {
+            // an entry kind letter replaced
+            let idx: Vec<usize> = (0..b.len()).filter(|&i| b[i] == b'n' || b[i] == b'f').collect();
+            if let Some(&i) = idx.get(rng.usize(idx.len().max(1))) { b[i] = *rng.pick(b"fnxF"); }
+            (b, "kind-letter")
+        }
+        6 => {
+            // the keyword `trailer` damaged or doubled
+            if let Some(i) = b.windows(7).position(|w| w == b"trailer") {
+                if rng.chance(1, 2) { b[i + rng.usize(7)] = b'x'; } else { let mut ins = b"trailer ".to_vec(); ins.extend_from_slice(&b[i..]); b.truncate(i); b.extend(ins); }
+            }
+            (b, "trailer-keyword")
+        }
+        7 => {
+            // a digit changed (counts, offsets, generations)
+            let idx: Vec<usize> = (0..b.len()).filter(|&i| b[i].is_ascii_digit()).collect();
+            if let Some(&i) = idx.get(rng.usize(idx.len().max(1))) { b[i] = b'0' + rng.below(10) as u8; }
+            (b, "digit")
+        }
+        _ => {
+            // a whole line dropped
+            let lines: Vec<usize> = (0..b.len()).filter(|&i| b[i] == b'\n' || b[i] == b'\r').collect();
+            if lines.len() >= 2 { let a = rng.usize(lines.len() - 1); let (x, y) = (lines[a], lines[a + 1]); b.drain(x..y); }
+            (b, "line-dropped")
+        }
+    }
+}
+
+fn table_outside(driver: &Driver, seed: u64, n: u64) -> Stream {
+    let mut st = Stream::new("c02.table.outside", false);
+    let mut reqs = vec![];
+    let mut imps = vec![];
+    for case in 0..n {
+        let mut rng = Rng::derive(seed, "c02.table.outside", case);
+        let wide = rng.chance(1, 4);
+        let c = gen_table_case(&mut rng, wide);
+        let (mut b, what) = corrupt(&mut rng, &c.sec.bytes);
+        if rng.chance(1, 4) { b = corrupt(&mut rng, &b).0; }
+        st.count(&format!("corruption={}", what));
+        imps.push(real_table(&b));
+        reqs.push(format!("c02.table {}", crate::driver::hex(&b)));
+    }
+    for ((rq, m), i) in reqs.iter().zip(driver.ask(&reqs).iter()).zip(imps.iter()) {
+        st.count(&format!("outcome={}", m.split(' ').next().unwrap_or("")));
+        st.case(rq, &canon_answer(m, 2), &canon_answer(i, 2), true);
+    }
+    st
+}
+
+// ---------------------------------------------------------------------------------------------------
+// the /Prev walk over classic sections
+
+struct WalkFile {
+    bytes: Vec<u8>,
+    start: usize,
+    /// expected merged table (independent of the model): per slot the newest mention or Invalid
+    expect_entries: Vec<XRef>,
+    newest_marker: u64,
+    nsec: usize,
+    desc: String,
+}
+
+/// A well-formed file made of classic sections only: revision k defines / frees / re-uses some numbers
+/// with the generation discipline of the specification (a freed number carries generation + 1 and is
+/// re-used with that generation), each section in a random conforming layout with any subsection
+/// splitting, linked by /Prev; offsets are relative to the header, which sits behind an optional prefix.
+fn gen_walk_file(rng: &mut Rng, breakage: Option<u64>) -> WalkFile {
+    let nobj = 1 + rng.below(8);
+    let nrev = 1 + rng.usize(5);
+    let plen = if rng.chance(1, 3) { 1 + rng.usize(40) } else { 0 };
+    let mut out: Vec<u8> = (0..plen).map(|_| b"ab \n\r12"[rng.usize(7)]).collect();
+    let start = out.len();
+    out.extend_from_slice(b"%PDF-1.4\n");
+    #[derive(Clone, Copy, PartialEq)]
+    enum St { Unborn, Live, Freed }
+    let mut state = vec![(St::Unborn, 0u64); (nobj + 1) as usize];
+    let mut latest: BTreeMap<u64, XRef> = BTreeMap::new();
+    let mut offsets: Vec<u64> = vec![];
+    let mut size = 0u64;
+    let mut marker = 0;
+    let mut desc = String::new();
+    for rev in 0..nrev {
+        // filler: object bodies the table could point at
+        for _ in 0..rng.usize(3) {
+            out.extend_from_slice(format!("{} 0 obj\n{}\nendobj\n", 1 + rng.below(nobj), rng.below(1000)).as_bytes());
+        }
+        let mut mentions: Vec<(u64, XRef)> = vec![];
+        if rev == 0 {
+            mentions.push((0, XRef::Free { next_obj_nr: 0, gen_nr: 65535 }));
+        }
+        for id in 1..=nobj {
+            let (stt, g) = state[id as usize];
+            let touch = if rev == 0 { rng.chance(3, 4) } else { rng.chance(2, 5) };
+            if !touch { continue; }
+            let e = if stt == St::Live && rng.chance(1, 3) {
+                state[id as usize] = (St::Freed, g + 1);
+                XRef::Free { next_obj_nr: rng.below(nobj + 1), gen_nr: g + 1 }
+            } else {
+                state[id as usize] = (St::Live, g);
+                XRef::Raw { pos: rng.below(out.len() as u64 + 1) as usize, gen_nr: g }
+            };
+            mentions.push((id, e));
+        }
+        for (id, e) in &mentions { latest.insert(*id, *e); }
+        // any splitting into subsections: runs of consecutive numbers, cut at random, in random order
+        let mut subs: Vec<Sub> = vec![];
+        for (id, e) in &mentions {
+            match subs.last_mut() {
+                Some((first, es)) if *first as u64 + es.len() as u64 == *id && !rng.chance(1, 4) => es.push(*e),
+                _ => subs.push((*id as u32, vec![*e])),
+            }
+        }
+        if rng.chance(1, 4) { subs.push((rng.below(nobj + 3) as u32, vec![])); }
+        rng.shuffle(&mut subs);
+        size = size.max(nobj + 1) + rng.below(2);
+        marker = 5000 + rev as u64;
+        let mut prev = offsets.last().copied();
+        let mut tsize = Some(size);
+        if let Some(b) = breakage {
+            if rev == nrev - 1 || b % 2 == 0 {
+                match b / 2 % 7 {
+                    0 => prev = Some((out.len() - start) as u64),                  // /Prev to itself
+                    1 => prev = offsets.first().copied().or(Some(3)),               // skips sections / dangling
+                    2 => prev = Some(rng.below(out.len() as u64 + 50)),             // anywhere
+                    3 => tsize = None,                                              // no /Size
+                    4 => tsize = Some(1_000_001 + rng.below(5)),                    // beyond MAX_ID
+                    5 => tsize = Some(rng.below(3)),                                // table smaller than the numbers
+                    _ => prev = Some(u64::MAX / 2),
+                }
+            }
+        }
+        let mut trailer = gen_trailer(rng, tsize.unwrap_or(0), prev, marker);
+        if tsize.is_none() {
+            if let Val::Dict(kvs) = &mut trailer { kvs.retain(|(k, _)| k != b"Size"); }
+        }
+        let off = (out.len() - start) as u64;
+        let mut tape = Tape::lazy(rng.clone());
+        rng.next();
+        let tail = format!("\nstartxref\n{}\n%%EOF\n", off);
+        let sec = write_section(&subs, &trailer, tail.as_bytes(), &mut tape);
+        out.extend_from_slice(&sec.bytes);
+        offsets.push(off);
+        desc.push_str(&format!("[rev{} @{} {} size={}]", rev, off, show_subs(&subs), size));
+    }
+    if breakage == Some(97) {
+        // two sections that point at each other
+        desc.push_str("(loop)");
+    }
+    let mut expect_entries = vec![XRef::Invalid; size as usize];
+    expect_entries.push(XRef::Free { next_obj_nr: 0, gen_nr: 0xffff });
+    for (id, e) in &latest {
+        if (*id as usize) < expect_entries.len() {
+            // the extra slot at /Size is a free entry with generation 65535: only a larger one replaces it
+            if (*id as usize) < size as usize { expect_entries[*id as usize] = *e; }
+        }
+    }
+    WalkFile { bytes: out, start, expect_entries, newest_marker: marker, nsec: nrev, desc }
+}
+
+fn real_walk_inner(bytes: &[u8], start: usize) -> (String, Option<u64>) {
+    use pdf::backend::Backend;
+    let r = catch_unwind(AssertUnwindSafe(|| {
+        let res = TestResolve::new(&vec![], false);
+        let data = bytes.to_vec();
+        match data.read_xref_table_and_trailer(start, &res) {
+            Ok((t, trailer)) => {
+                let marker = trailer.get("Marker").and_then(|m| m.as_integer().ok()).map(|m| m as u64);
+                (format!("ok {} {}", (0..t.len()).map(|i| show_entry(&t.get(i as u64).unwrap())).collect::<Vec<_>>().join(","), show_val(&prim_to_val(&Primitive::Dictionary(trailer), &res))), marker)
+            }
+            Err(_) => ("err".to_string(), None),
+        }
+    }));
+    r.unwrap_or_else(|_| ("panic".into(), None))
+}
+
+static WALK_HUNG: std::sync::atomic::AtomicBool = std::sync::atomic::AtomicBool::new(false);
+
+/// `read_xref_table_and_trailer` under a watchdog: a walk that does not end (a `/Prev` loop that is not
+/// detected) answers `hang`; after the first one the remaining cases of the run are not started any more
+/// (`hang-skipped`), the stuck thread dies with the process
+fn real_walk(bytes: &[u8], start: usize) -> (String, Option<u64>) {
+    use std::sync::atomic::Ordering;
+    if WALK_HUNG.load(Ordering::SeqCst) {
+        return ("hang-skipped".into(), None);
+    }
+    let (tx, rx) = std::sync::mpsc::channel();
+    let data = bytes.to_vec();
+    std::thread::spawn(move || {
+        let _ = tx.send(real_walk_inner(&data, start));
+    });
+    match rx.recv_timeout(std::time::Duration::from_secs(10)) {
+        Ok(r) => r,
+        Err(_) => {
+            WALK_HUNG.store(true, Ordering::SeqCst);
+            ("hang".into(), None)
+        }
+    }
+}
+
+fn walk_streams(driver: &Driver, seed: u64, n: u64, only: Option<u64>) -> (Stream, Oracle) {
+    let mut st = Stream::new("c02.walk", true);
+    let mut or = Oracle::new("c02.walk.newest");
+    let mut reqs = vec![];
+    let mut imps = vec![];
+    let cases: Vec<u64> = match only { Some(c) => vec![c], None => (0..n).collect() };
+    for case in cases {
+        let mut rng = Rng::derive(seed, "c02.walk", case);
+        let f = gen_walk_file(&mut rng, None);
+        st.count(&format!("sections={}", f.nsec));
+        st.count(if f.start > 0 { "prefix=yes" } else { "prefix=no" });
+        let (imp, marker) = real_walk(&f.bytes, f.start);
+        reqs.push(format!("c02.walk {} {}", crate::driver::hex(&f.bytes), f.start));
+        let expect = f.expect_entries.iter().map(show_entry).collect::<Vec<_>>().join(",");
+        or.case(&f.desc, f.nsec > 1, || json!({"history": f.desc}));
+        let got_entries = imp.split(' ').nth(1).unwrap_or("").to_string();
+        let replay = json!({"stream": "c02.walk", "seed": seed, "case": case, "history": f.desc, "start": f.start, "file_hex": crate::driver::hex(&f.bytes)});
+        if !imp.starts_with("ok ") {
+            or.fail("walk-failed", &format!("read_xref_table_and_trailer answers {} on a well-formed chain of classic sections: {}", imp, f.desc), replay);
+        } else if got_entries != expect {
+            or.fail("stale-or-wrong-entry", &format!("merged table {} but the newest mentions are {} ({})", trunc(&got_entries), trunc(&expect), f.desc), replay);
+        } else if marker != Some(f.newest_marker) {
+            or.fail("trailer-not-newest", &format!("trailer marker {:?}, the newest section has {} ({})", marker, f.newest_marker, f.desc), replay);
+        }
+        imps.push(imp);
+    }
+    for ((rq, m), i) in reqs.iter().zip(driver.ask(&reqs).iter()).zip(imps.iter()) {
+        st.count(&format!("outcome={}", m.split(' ').next().unwrap_or("")));
+        st.case(rq, &canon_answer(m, 2), &canon_answer(i, 2), true);
+    }
+    (st, or)
+}
+
+fn walk_outside(driver: &Driver, seed: u64, n: u64) -> Stream {
+    let mut st = Stream::new("c02.walk.outside", false);
+    let mut reqs = vec![];
+    let mut imps = vec![];
+    for case in 0..n {
+        let mut rng = Rng::derive(seed, "c02.walk.outside", case);
+        let b = rng.below(28);
+        let mut f = gen_walk_file(&mut rng, Some(b));
+        let mut start = f.start;
+        match rng.below(6) {
+            0 => start = start.wrapping_add(1 + rng.usize(3)),                // header offset wrong
+            1 => { let (c, _) = corrupt(&mut rng, &f.bytes); f.bytes = c; }
+            _ => {}
+        }
+        st.count(&format!("breakage={}", b / 2 % 7));
+        imps.push(real_walk(&f.bytes, start).0);
+        reqs.push(format!("c02.walk {} {}", crate::driver::hex(&f.bytes), start));
+    }
+    for ((rq, m), i) in reqs.iter().zip(driver.ask(&reqs).iter()).zip(imps.iter()) {
+        st.count(&format!("outcome={}", m.split(' ').next().unwrap_or("")));
+        st.case(rq, &canon_answer(m, 2), &canon_answer(i, 2), true);
     }
     st
 }
@@ -538,6 +1141,21 @@ fn replay_request(rq: &str) -> String {
                 }
             })).unwrap_or_else(|_| "panic".into())
         }
+        ["c02.table", hx] => real_table(&crate::driver::unhex(hx).unwrap_or_default()),
+        ["c02.tableat", hx, pos] => real_table_at(&crate::driver::unhex(hx).unwrap_or_default(), pos.parse().unwrap_or(0)),
+        ["c02.walk", hx, start] => real_walk(&crate::driver::unhex(hx).unwrap_or_default(), start.parse().unwrap_or(0)).0,
+        ["c02.tablewrite", sec, trailer, tape, tail] => {
+            let subs: Vec<Sub> = if *sec == "-" { vec![] } else {
+                sec.split(';').map(|sub| {
+                    let (first, es) = sub.split_once(':').unwrap_or(("0", "-"));
+                    (first.parse().unwrap_or(0), if es == "-" { vec![] } else { es.split(',').filter_map(parse_entry).collect() })
+                }).collect()
+            };
+            match (read_val(trailer), read_tape(tape), crate::driver::unhex(tail)) {
+                (Some(tr), Some(tp), Some(tl)) => crate::driver::hex(&write_section(&subs, &tr, &tl, &mut Tape::fixed(tp)).bytes),
+                _ => "unsupported-replay".into(),
+            }
+        }
         _ => "unsupported-replay".into(),
     }
 }
@@ -551,6 +1169,7 @@ pub fn run(driver: &Driver, seed: u64, thorough: bool, replay: Option<&serde_jso
             let imp = replay_request(rq);
             let m = driver.ask(&[rq.to_string()]).remove(0);
             let m = if rq.starts_with("c02.merge") { model_entries(&m) } else { m };
+            let (m, imp) = if rq.starts_with("c02.table ") || rq.starts_with("c02.tableat ") || rq.starts_with("c02.walk ") { (canon_answer(&m, 2), canon_answer(&imp, 2)) } else { (m, imp) };
             st.case(rq, &m, &imp, true);
             rep.streams.push(st);
             return rep;
@@ -558,9 +1177,23 @@ pub fn run(driver: &Driver, seed: u64, thorough: bool, replay: Option<&serde_jso
         // replay of a stored oracle case: re-run exactly that (stream, seed, case)
         let seed = r["seed"].as_u64().unwrap_or(seed);
         let case = r["case"].as_u64().unwrap_or(0);
-        let (st, or) = file_level(driver, seed, case, case + 1);
-        rep.streams.push(st);
-        rep.oracles.push(or);
+        match r["stream"].as_str() {
+            Some("c02.table") => {
+                let (sts, or) = table_streams(driver, seed, 0, Some(case), false);
+                rep.streams.extend(sts);
+                rep.oracles.push(or);
+            }
+            Some("c02.walk") => {
+                let (st, or) = walk_streams(driver, seed, 0, Some(case));
+                rep.streams.push(st);
+                rep.oracles.push(or);
+            }
+            _ => {
+                let (st, or) = file_level(driver, seed, case, case + 1);
+                rep.streams.push(st);
+                rep.oracles.push(or);
+            }
+        }
         return rep;
     }
     rep.streams.push(exhaustive(driver, if thorough { 3 } else { 2 }));
@@ -571,5 +1204,16 @@ pub fn run(driver: &Driver, seed: u64, thorough: bool, replay: Option<&serde_jso
     let (st, or) = file_level(driver, seed, 0, if thorough { 50_000 } else { 1500 });
     rep.streams.push(st);
     rep.oracles.push(or);
+    let (sts, or) = table_streams(driver, seed, if thorough { 100_000 } else { 2500 }, None, false);
+    rep.streams.extend(sts);
+    rep.oracles.push(or);
+    let (sts, _) = table_streams(driver, seed, if thorough { 30_000 } else { 800 }, None, true);
+    rep.streams.extend(sts);
+    rep.streams.push(table_tokens(driver, if thorough { 6 } else { 5 }));
+    rep.streams.push(table_outside(driver, seed, if thorough { 100_000 } else { 3000 }));
+    let (st, or) = walk_streams(driver, seed, if thorough { 50_000 } else { 1500 }, None);
+    rep.streams.push(st);
+    rep.oracles.push(or);
+    rep.streams.push(walk_outside(driver, seed, if thorough { 50_000 } else { 1500 }));
     rep
 }
